@@ -79,9 +79,10 @@ FciCfg(v) ==
       [] v.f = "rpsi" -> FoldLeft(ApplyRpsi, [f |-> "rpsi", pt |-> 0, data |-> <<>>, bits |-> 0], v.calls)
       [] v.f = "pli"  -> [f |-> "pli"]
 
-\* the third-party family (packet type, minimum length, has SSRC), index fam + 1
-Family == << << 242, 12, TRUE >>, << 199, 4, FALSE >>, << 207, 8, TRUE >>, << 0, 16, TRUE >>,
-             << 255, 12, TRUE >>, << 192, 28, TRUE >>, << 242, 20, TRUE >> >>
+\* the third-party family (packet type, minimum length, has SSRC, MAX_COUNT of its RtcpPacket impl), index fam + 1
+Family == << << 242, 12, TRUE, 31 >>, << 199, 4, FALSE, 31 >>, << 207, 8, TRUE, 31 >>, << 0, 16, TRUE, 31 >>,
+             << 255, 12, TRUE, 31 >>, << 192, 28, TRUE, 31 >>, << 242, 20, TRUE, 31 >>,
+             << 210, 8, TRUE, 20 >>, << 211, 4, FALSE, 16 >> >>      \* types whose count has a smaller maximum
 
 \* very long payloads are scripted compactly as big = [rep |-> byte, n |-> count]
 BigOr(c, v) == IF Has(c, "big") THEN [i \in 1..c.big.n |-> c.big.rep] ELSE v
@@ -97,7 +98,11 @@ NewCfg(kind, c) ==
       [] kind = "unk"  -> [kind |-> "unk", type |-> c.type, count |-> 0, padding |-> 0, data |-> BigOr(c, c.data)]
       [] kind \in {"tfb", "pfb"} -> [kind |-> kind, sender |-> Z32, media |-> Z32, padding |-> 0, fci |-> FciCfg(c.fci)]
       [] kind = "custom" -> [kind |-> "custom", pt |-> Family[c.fam + 1][1], min |-> Family[c.fam + 1][2],
-                             has_ssrc |-> Family[c.fam + 1][3], ssrc |-> c.ssrc, padding |-> 0, count |-> 0, payload |-> <<>>]
+                             has_ssrc |-> Family[c.fam + 1][3], maxc |-> Family[c.fam + 1][4], ssrc |-> c.ssrc, padding |-> 0,
+                             count |-> 0, payload |-> <<>>,
+                             \* a conservative third-party writer: its calculate_size() is an upper bound (reserve bytes
+                             \* more than it writes); see Conservative below
+                             reserve |-> IF Has(c, "reserve") THEN c.reserve ELSE 0]
       [] kind = "compound" -> [kind |-> "compound", members |-> <<>>]
 
 ApplyCall(cfg, c) ==
@@ -150,8 +155,17 @@ RoundTripProp(kind) ==
     CASE kind \in {"sr", "rr"} -> "C02" [] kind = "sdes" -> "C03" [] kind \in {"bye", "app"} -> "C04"
       [] kind \in {"tfb", "pfb"} -> "C05" [] OTHER -> "C19"
 
+\* A configuration with a CONSERVATIVE third-party member (a writer outside the crate whose calculate_size() is an
+\* upper bound of what it writes) has no RFC image and no size in the sense of C06/C07/C14: of the writer properties
+\* only C17 speaks about it (the n bytes reported do not depend on the buffer, nothing beyond n is touched, a failed
+\* write touches nothing), and C17's conjuncts do not need the image.
+RECURSIVE Conservative(_)
+Conservative(c) == IF c.kind = "compound" THEN \E i \in 1..Len(c.members) : Conservative(c.members[i])
+                   ELSE c.kind = "custom" /\ c.reserve > 0
+
 \* calculate_size on the current configuration
 CalcSizeConf(cfg, res) ==
+    Conservative(cfg) \/
     \* round trips start with "every configuration the builder accepts serialises": a representable configuration
     \* is sized without panic
     /\ P(RoundTripProp(cfg.kind)) => (~IsPanic(res) /\ (Accepts(cfg) => IsOk(res)))
@@ -173,10 +187,10 @@ HasFir(c) == IF c.kind = "compound" THEN \E i \in 1..Len(c.members) : HasFir(c.m
 \* write_into(buffer of length L prefilled with pattern fill) -> res, buffer afterwards = out
 \* prev = an earlier write on the same configuration (prev.same: by the same builder instance)
 WriteConf(cfg, a, prev, L, fill, res, out) ==
-    /\ P(RoundTripProp(cfg.kind)) =>
+    /\ P(RoundTripProp(cfg.kind)) /\ ~Conservative(cfg) =>
           /\ ~IsPanic(res)
           /\ (Accepts(cfg) /\ ~IsNone(a) /\ IsOk(a) /\ L >= a.n) => IsOk(res)       \* ... and serialises
-    /\ P("C06") =>
+    /\ P("C06") /\ ~Conservative(cfg) =>
           /\ ~IsPanic(res)
           /\ ~IsNone(a) =>
                 /\ (IsOk(a) /\ L >= a.n) => (IsOk(res) /\ res.n = a.n)
@@ -190,18 +204,18 @@ WriteConf(cfg, a, prev, L, fill, res, out) ==
           /\ (~IsNone(prev) /\ IsOk(res) /\ IsOk(prev.res) /\ prev.fill # fill /\ (prev.same \/ ~HasFir(cfg))) =>
                 /\ prev.res.n = res.n
                 /\ res.n <= Min2(L, prev.L) => SubSeq(out, 1, res.n) = SubSeq(prev.out, 1, res.n)
-    /\ (P("C07") \/ P("C20") \/ P("C14") \/ P("C19")) =>
+    /\ ((P("C07") \/ P("C20") \/ P("C14") \/ P("C19")) /\ ~Conservative(cfg)) =>
           ((IsOk(res) /\ Accepts(cfg)) => (res.n <= Len(out) /\ IsImage(cfg, SubSeq(out, 1, res.n))))
-    /\ (P("C16") \/ P("C20") \/ P("C14") \/ P("C19")) =>
+    /\ ((P("C16") \/ P("C20") \/ P("C14") \/ P("C19")) /\ ~Conservative(cfg)) =>
           /\ ~IsPanic(res)
           /\ Accepts(cfg) => (IsOk(res) \/ (IsErr(res) /\ res.e = "OutputTooSmall"))
           /\ ~Accepts(cfg) => (IsErr(res) /\ WriteErrAllowed(cfg, AsErr(res)))
-    /\ P("C20") =>
+    /\ P("C20") /\ ~Conservative(cfg) =>
           (Accepts(cfg) => /\ L >= Size(cfg) => (IsOk(res) /\ res.n = Size(cfg))
                            /\ L < Size(cfg)  => (IsErr(res) /\ AsErr(res) = Err("OutputTooSmall", << Size(cfg) >>)))
 
 GetPaddingConf(cfg, res) ==
-    (P("C14") \/ P("C20") \/ P("C19")) =>
+    ((P("C14") \/ P("C20") \/ P("C19")) /\ ~Conservative(cfg)) =>
         /\ IsOk(res)
         \* "no padding" may be reported as None (-1) or as Some(0): the writer trait allows both
         /\ IF PaddingOf(cfg) = 0 THEN res.n \in {-1, 0} ELSE res.n = PaddingOf(cfg)
@@ -734,7 +748,7 @@ IsImageSrc(ev) == Has(ev, "src") /\ ev.src = "image" /\ ~Has(ev, "edits") /\ ~Ha
 \* on the fields that come back.  Excluded: totals above 65536 words (the recorded finding D12, judged by C16) and
 \* an FCI in the wrong kind of feedback packet (the view has no such FCI to compare with).
 RtCtx(ev) == /\ IsImageSrc(ev) /\ ~IsNone(bld.cfg) /\ ~IsNone(wr) /\ IsOk(wr.res)
-             /\ ~TooBig(bld.cfg)
+             /\ ~TooBig(bld.cfg) /\ ~Conservative(bld.cfg)
              /\ bld.cfg.kind \in {"tfb", "pfb"} => FciRules(bld.cfg.kind, bld.cfg.fci) = {}
 
 \* a raw / third-party member that impersonates a built-in packet type need not parse as that type
@@ -826,7 +840,8 @@ Conf(ev) ==
       [] ev.op = "write_unchecked" -> /\ Len(ev.out) = ev.len
                                       /\ WriteConf(bld.cfg, None, None, ev.len, ev.fill, ev.res, ev.out)
                                       /\ (P("C06") \/ P("C07") \/ P("C20") \/ P("C14") \/ P("C19") \/ P("C17")) =>
-                                            (Accepts(bld.cfg) => (ev.len = Size(bld.cfg) /\ IsOk(ev.res) /\ ev.res.n = ev.len))
+                                            ((Accepts(bld.cfg) /\ ~Conservative(bld.cfg)) =>
+                                                (ev.len = Size(bld.cfg) /\ IsOk(ev.res) /\ ev.res.n = ev.len))
       [] ev.op = "get_padding" -> GetPaddingConf(bld.cfg, ev.res)
       [] ev.op \in {"item_write", "chunk_write"} -> StandaloneConf(ev)
       [] ev.op = "parse"       -> ParseEvConf(ev)
